@@ -1546,6 +1546,12 @@ class Evaluator(object):
             for k_, v_ in kw:
                 if k_ == "copy" and tm.is_const(v_, False) and args:
                     outt = args[0]
+        if outt is None:
+            # SciPy's overwrite_a=True / overwrite_b=True / overwrite_x=True: the routine may destroy that argument
+            pos = {"overwrite_a": 0, "overwrite_x": 0, "overwrite_input": 0, "overwrite_data": 0, "overwrite_b": 1, "overwrite_ab": 0}
+            for k_, v_ in kw:
+                if k_ in pos and tm.is_const(v_, True) and len(args) > pos[k_]:
+                    outt = args[pos[k_]]
         if outt is not None and outt.op != "const":
             self.site("mutate", node, how="out:" + str(callee), old=outt, root=None, key=tm.none(), val=t, target=None)
         return t
